@@ -30,10 +30,10 @@ type Reader struct {
 // the data with:
 //
 //	1: control byte
-//	9: maximum varint stream id
-//	9: maximum varint message id
-//	9: maximum varint data length
-const maxFrameOverhead = 1 + 9 + 9 + 9
+//	10: maximum varint stream id
+//	10: maximum varint message id
+//	10: maximum varint data length
+const maxFrameOverhead = 1 + 10 + 10 + 10
 
 // NewReader constructs a Reader to read Packets from the io.Reader.
 func NewReader(r io.Reader) *Reader {
@@ -98,6 +98,14 @@ func (r *Reader) ReadPacketUsing(buf []byte) (pkt Packet, err error) {
 			return Packet{}, drpc.ProtocolError.Wrap(err)
 
 		case !ok:
+			// r.curr starts at a frame boundary and does not hold a full
+			// frame yet. If it is already larger than any acceptable frame,
+			// the frame can never fit. This only looks at the incomplete
+			// frame, so it does not depend on how reads are chunked.
+			if len(r.curr)-maxFrameOverhead > r.opts.MaximumBufferSize {
+				return Packet{}, drpc.ProtocolError.New("data overflow")
+			}
+
 			// r.curr doesn't have enough data for a full frame, so prepend
 			// it to the read buffer if it is in the appropriate state.
 			if len(r.buf) == 0 {
@@ -120,11 +128,6 @@ func (r *Reader) ReadPacketUsing(buf []byte) (pkt Packet, err error) {
 				return Packet{}, drpc.ProtocolError.New("data overflow")
 			}
 			r.buf = r.buf[:ncap]
-
-			if len(r.buf)-maxFrameOverhead > r.opts.MaximumBufferSize {
-				return Packet{}, drpc.ProtocolError.New("data overflow")
-			}
-
 			r.curr = r.buf
 			continue
 		}
